@@ -19,6 +19,10 @@ SLURM_PINNED = {
     "CA": "cancelled", "CD": "success",
 }
 SLURM_UNPINNED = ["RS", "SO", "RV", "SI"]
+# Codes of jobs that are alive (held, suspended, being signalled, resizing ...) but that the statement does not
+# assign to "submitted" or "running": either is accepted, "failed"/"cancelled"/"no record" is not - the job
+# exists and will go on, reporting it otherwise makes the next run submit a duplicate.
+LIVE_EITHER = {"slurm": {"SI", "RS", "SO"}, "lsf": {"PSUSP", "USUSP", "SSUSP", "ZOMBI"}, "sge": {"s", "S", "T", "Rq"}}
 SLURM_LONG = {
     "BF": "BOOT_FAIL", "CA": "CANCELLED", "CD": "COMPLETED", "DL": "DEADLINE", "F": "FAILED", "NF": "NODE_FAIL",
     "OOM": "OUT_OF_MEMORY", "PD": "PENDING", "PR": "PREEMPTED", "R": "RUNNING", "RQ": "REQUEUED", "RS": "RESIZING",
@@ -487,7 +491,7 @@ class Cluster:
         if fl == "slurm":
             if j.live:
                 if j.unpinned:
-                    return "unpinned"
+                    return "live" if j.code in LIVE_EITHER["slurm"] else "unpinned"
                 return SLURM_PINNED[j.code]
             if self.accounting and j.acct is not None:
                 return SLURM_PINNED[j.acct]
@@ -495,13 +499,13 @@ class Cluster:
         if fl == "sge":
             if j.live and j.phase != "done":
                 if j.unpinned:
-                    return "unpinned"
+                    return "live" if j.code in LIVE_EITHER["sge"] else "unpinned"
                 return SGE_PINNED[j.code]
             return "none"
         if fl == "lsf":
             if j.live:
                 if j.unpinned:
-                    return "unpinned"
+                    return "live" if j.code in LIVE_EITHER["lsf"] else "unpinned"
                 return LSF_PINNED[j.code]
             return "none"
         raise HarnessError(fl)
